@@ -155,6 +155,32 @@ P("cfg_off_guid", offsetof(SuplaEspCfg, GUID)); P("cfg_off_auth", offsetof(Supla
 P("cfg_off_server", offsetof(SuplaEspCfg, Server)); P("cfg_state_len", sizeof(SuplaEspState));
 P("cfg_sector", CFG_SECTOR); P("cfg_state_off", STATE_SECTOR_OFFSET);
 """, includes_c=["supla_esp.h", "supla_esp_cfg.h"])
+    # supla_update.c: slot addresses, size limits per flash map, sector size, footer and key size
+    up = open(os.path.join(C.REPO, "src/user/supla_update.c")).read()
+    un = re.sub(r"\s+", " ", up)
+    ma = re.findall(r"update->flash_addr = ubin == UPGRADE_FW_BIN1 \? (0x[0-9a-fA-F]+) : (0x[0-9a-fA-F]+);", un)
+    ml = re.findall(r"if \( update->expected_file_size <= (\d+)\*(\d+) \) update_step = FUPDT_STEP_DOWNLOADING;", un)
+    mf = re.search(r"footer\[0\] != 0x([0-9A-F]+) \|\| footer\[1\] != 0x([0-9A-F]+) \|\| footer\[2\] != 0x([0-9A-F]+) \|\| "
+                   r"footer\[3\] != 0x([0-9A-F]+) \|\| footer\[4\] != (\d+) \|\| footer\[5\] != (\d+)\)", un)
+    mk = re.search(r"key_bytes = \(footer\[6\] << 8\) - footer\[7\];", un)
+    mb = re.search(r"int bytes_left = update->flash_awo-update->flash_addr-16-key_bytes;", un)
+    mc = re.search(r"if \( update->downloaded_data_size \+ content_len > update->expected_file_size \) "
+                   r"content_len = update->expected_file_size - update->downloaded_data_size;", un)
+    if len(ma) != 2 or len(ml) != 2 or not (mf and mk and mb):
+        raise ExtractError("supla_update.c: slot/limit/footer literals not recognised")
+    u = run_probe("p_upd", """
+P("upd_sec", SPI_FLASH_SEC_SIZE); P("upd_rsa", RSA_NUM_BYTES); P("upd_bin1", UPGRADE_FW_BIN1);
+P("upd_m2", FLASH_SIZE_8M_MAP_512_512); P("upd_m3", FLASH_SIZE_16M_MAP_512_512); P("upd_m4", FLASH_SIZE_32M_MAP_512_512);
+P("upd_m5", FLASH_SIZE_16M_MAP_1024_1024); P("upd_m6", FLASH_SIZE_32M_MAP_1024_1024);
+P("upd_attempts", 5);
+""", includes_c=["supla_esp.h", "spi_flash.h", "upgrade.h", "user_interface.h"])
+    u.update({"upd_a512_hi": str(int(ma[0][0], 16)), "upd_a512_lo": str(int(ma[0][1], 16)),
+              "upd_a1024_hi": str(int(ma[1][0], 16)), "upd_a1024_lo": str(int(ma[1][1], 16)),
+              "upd_l512": str(int(ml[0][0]) * int(ml[0][1])), "upd_l1024": str(int(ml[1][0]) * int(ml[1][1])),
+              "upd_footer": "[%s]" % ", ".join(str(int(x, 16)) for x in mf.groups()[:4]) ,
+              "upd_f45": "(%s, %s)" % (mf.group(5), mf.group(6)),
+              "upd_clamp": "true" if mc else "false"})
+    a.update(u)
     a.update(h)
     a.update(b)
     a.update(c)
@@ -176,6 +202,7 @@ def emit_consts():
         "import SuplaVerif.Model.KeepAlive",
         "import SuplaVerif.Model.Countdown",
         "import SuplaVerif.Model.CfgStore",
+        "import SuplaVerif.Model.Update",
         "namespace SuplaVerif.Gen",
         "",
         "def protoParams : ProtoParams :=",
@@ -232,6 +259,13 @@ def emit_consts():
             k["cfg_len"], k["cfg_guid"], k["cfg_auth"]),
         "theorem cfg_offsets_ok : (%s, %s, %s) = (6, 6 + %s, 6 + %s + %s) := by decide" % (
             k["cfg_off_guid"], k["cfg_off_auth"], k["cfg_off_server"], k["cfg_guid"], k["cfg_guid"], k["cfg_auth"]),
+        "def updParams : UpdParams :=",
+        "  { sec := %s, rsa := %s, lim512 := %s, lim1024 := %s, hi512 := %s, lo512 := %s, hi1024 := %s, lo1024 := %s," % (
+            k["upd_sec"], k["upd_rsa"], k["upd_l512"], k["upd_l1024"], k["upd_a512_hi"], k["upd_a512_lo"],
+            k["upd_a1024_hi"], k["upd_a1024_lo"]),
+        "    maps512 := [%s, %s, %s], maps1024 := [%s, %s], bin1 := %s, clamp := %s }" % (
+            k["upd_m2"], k["upd_m3"], k["upd_m4"], k["upd_m5"], k["upd_m6"], k["upd_bin1"], k["upd_clamp"]),
+        "theorem upd_footer_ok : ((%s : List Nat), %s) = ([186, 190, 43, 237], (0, 1)) := by decide" % (k["upd_footer"], k["upd_f45"]),
         "def dnsTimeoutMs : Nat := %s" % k["dns_timeout"],
         "def dnsRetryMs : Nat := %s" % k["dns_retry"],
         "/-- field offsets / literals of the reply parser the model hard-codes -/",
